@@ -4,6 +4,7 @@ from __future__ import annotations
 import numpy as np
 
 import c08_impl
+import c08_scale
 import run_ladim as rl
 import setup_impl as su
 import sim_impl as si
@@ -19,7 +20,13 @@ RULE = ("This property is a differential statement, so the oracle is the real th
         "ladim.main.main, and all later files are compared record by record (particle sets, pids, X, age, temp, "
         "particle variables, number of files) with the uninterrupted run. The EF scenarios are also compared exactly "
         "with the executable Sim instance in Coq (cold run and each warm run). RK2/RK4 and continuous-release scenarios "
-        "are oracle-only. Non-trivial = restart point after which a particle dies and another is released.")
+        "are oracle-only. Non-trivial = restart point after which a particle dies and another is released. "
+        "A fixed family of SCALE cases (c08_scale.py, oracle-only, always first) states the same differential property for "
+        "every record after the restart on whole arrays: restart files of > 100 000 particle instances whose youngest "
+        "particles die in their first records (no particle variables: the identifiers of later releases), a last record "
+        "of > 100 000 particles, 130 records per file, > 60 000 particles released continuously of which 7500 alive, "
+        "70 000 dead particles in the particle variables, > 1000 steps between records and forcing frames, file "
+        "numbers passing 999 -> 1000, a reference time decades before the run.")
 TRUSTED = ["Coq 8.16.1 kernel + vm_compute", "system model coq/Model/Sim.v (restore, catch-up step, loop) with its executable instance tied by this correspondence",
            "physics abstract in the theorem (per-particle function of the step)"]
 ASSUMPTIONS = ["diffusion off", "all state variables written to the output and listed as warm-start variables, lossless datatypes (f8/i4)",
@@ -28,7 +35,8 @@ ASSUMPTIONS = ["diffusion off", "all state variables written to the output and l
 
 def gen_cases(ctx):
     rng = ctx.rng
-    out = []
+    # deterministic scale cases, always present and first (they do not draw from rng)
+    out = c08_scale.gen_scale_cases()
     for _ in range(7 if ctx.quick else 60):
         env = si.make_env(rng, N=rng.randint(5, 11))
         out.append({"k": "sim", "env": env, "numrec": rng.choice([1, 2, 2, 3]), "seed": rng.randrange(10**6)})
@@ -72,6 +80,8 @@ def eval_case(desc, ctx):
     d = ctx.subdir("c08")
     for f in d.glob("*"):
         f.unlink()
+    if desc["k"] == "scale":
+        return c08_scale.eval_scale(desc, d)
     if desc["k"] == "impl":
         return eval_impl(desc, d)
     if desc["k"] == "setup":
